@@ -346,6 +346,274 @@ def probe_nonvacuous(ctx):
     return None
 
 
+# ----------------------------------------------------------------------------- several fits in ONE process, order of first use
+
+# executed by a fresh interpreter: every job is fitted in a child forked from a process that has imported the library but has
+# not created / fitted any estimator, i.e. every reference fit is the FIRST fit of its process
+_FRESH_WORKER = r'''
+import json, os, select, signal, sys, time
+import numpy as np
+import pykoop.lmi_regressors as lmi
+jobs = json.load(open(sys.argv[1]))
+limit = float(sys.argv[3])
+out = []
+for job in jobs:
+    r, w = os.pipe()
+    pid = os.fork()
+    if pid == 0:
+        os.close(r)
+        try:
+            kw = dict(job['params'])
+            if kw.get('supply_rate') is not None:
+                kw['supply_rate'] = np.array(kw['supply_rate'], dtype=float)
+            reg = lmi.LmiEdmdDissipativityConstr(solver_params=dict(job['solver']), **kw)
+            reg.fit(np.array(job['X'], dtype=float), n_inputs=job['nu'], episode_feature=True)
+            res = {'coef': np.asarray(reg.coef_, dtype=float).tolist(), 'P': np.asarray(reg.P_, dtype=float).tolist(),
+                   'stop': str(reg.stop_reason_), 'n_iter': int(reg.n_iter_)}
+        except BaseException as ex:
+            res = {'error': type(ex).__name__ + ': ' + str(ex)[:200]}
+        try:
+            data = json.dumps(res).encode()
+            while data:
+                data = data[os.write(w, data):]
+        finally:
+            os._exit(0)
+    os.close(w)
+    buf, t_end = b'', time.time() + limit
+    while True:
+        left = t_end - time.time()
+        if left <= 0:
+            buf = None
+            break
+        if select.select([r], [], [], left)[0]:
+            chunk = os.read(r, 1 << 16)
+            if not chunk:
+                break
+            buf += chunk
+    os.close(r)
+    if buf is None:
+        try:
+            os.kill(pid, signal.SIGKILL)
+        except OSError:
+            pass
+    try:
+        os.waitpid(pid, 0)
+    except OSError:
+        pass
+    try:
+        out.append(json.loads(buf.decode()) if buf else {'error': 'no answer within the time limit'})
+    except ValueError:
+        out.append({'error': 'unreadable answer'})
+json.dump(out, open(sys.argv[2], 'w'))
+'''
+
+
+class FreshFits:
+    """reference fits, each one the first fit of its process; started in the background, collected later.  Never raises: if
+    the reference cannot be obtained every answer is None and the comparisons that need it are skipped (and counted)"""
+
+    def __init__(self, jobs, per_fit=60.0):
+        import os, subprocess, sys, tempfile
+        self.n = len(jobs)
+        self.proc = None
+        self.dir = None
+        self.deadline = 90.0 + 8.0 * len(jobs)
+        try:
+            self.dir = tempfile.mkdtemp(prefix='c11_fresh_')
+            self.inp, self.outp = os.path.join(self.dir, 'jobs.json'), os.path.join(self.dir, 'out.json')
+            json.dump(jobs, open(self.inp, 'w'))
+            self.proc = subprocess.Popen([sys.executable, '-c', _FRESH_WORKER, self.inp, self.outp, str(per_fit)],
+                                         stdin=subprocess.DEVNULL, stdout=subprocess.DEVNULL, stderr=subprocess.DEVNULL)
+        except Exception:
+            self.proc = None
+
+    def results(self):
+        import shutil, subprocess
+        res = [None] * self.n
+        try:
+            if self.proc is not None:
+                try:
+                    self.proc.wait(timeout=self.deadline)
+                except subprocess.TimeoutExpired:
+                    self.proc.kill()
+                    self.proc.wait()
+                got = json.load(open(self.outp))
+                if isinstance(got, list) and len(got) == self.n:
+                    res = [g if isinstance(g, dict) and 'coef' in g else None for g in got]
+        except Exception:
+            pass
+        finally:
+            if self.dir:
+                shutil.rmtree(self.dir, ignore_errors=True)
+        return res
+
+
+def dissipativity_problems(U, P, Xi, nx, bound, mixed):
+    """the first clause on one returned pair, computed here from the supply rate THIS oracle asked for (never read back from the
+    estimator or the module): P_ >= 0, eigenvalues of [A B]'P_[A B] - diag(P_,0) + Xi <= 0, and - independently of P_ - the
+    frequency-domain inequality of the supply rate / the l2 gain bound it encodes"""
+    from .c10 import hinf_norm
+    nu = U.shape[1] - nx
+    A, B = U[:, :nx], U[:, nx:]
+    P = (P + P.T) / 2
+    nP = max(1.0, np.linalg.norm(P, 2))
+    problems = []
+    min_p = np.min(np.linalg.eigvalsh(P))
+    if min_p < -1e-7 * nP:
+        problems.append(f'returned storage matrix P_ is not positive semidefinite (min eigenvalue {min_p:.4g})')
+    M = U.T @ P @ U + Xi
+    M[:nx, :nx] -= P
+    scale = nP * (1 + np.linalg.norm(U, 2) ** 2) + np.linalg.norm(Xi, 2)
+    max_m = np.max(np.linalg.eigvalsh((M + M.T) / 2))
+    if max_m > 1e-5 * scale:
+        problems.append('dissipation inequality violated with the returned (coef_, P_): max eigenvalue of '
+                        f"[A B]'P[A B] - diag(P,0) + Xi = {max_m:.5g} > 0")
+    if np.max(np.abs(np.linalg.eigvals(A))) < 1:
+        v, th, sg = popov_max(A, B, Xi)
+        if v > 1e-4 * np.linalg.norm(Xi, 2) * (1 + sg ** 2):
+            problems.append(f'no storage function at all exists for the returned model: [G;I]^* Xi [G;I] has eigenvalue {v:.5g} > 0 '
+                            f'at frequency {th:.4f} rad/sample')
+        if not mixed:
+            nrm = hinf_norm(A, B, np.eye(nx), np.zeros((nx, nu)), 600)
+            if nrm > bound * (1 + 1e-4):
+                problems.append(f'l2 gain {nrm:.5f} of the returned model exceeds the bound {bound} of the supply rate')
+    return problems
+
+
+# (p, [(nx, nu, supply kind, plant gain / bound)], one estimator object re-used for all fits).  All have the SAME lifted
+# dimension p = nx + nu in every step and a different split into states and inputs
+ORDER_SWEEPS = [
+    (3, [(1, 2, 'default', 0.4), (2, 1, 'default', 3.0), (1, 2, 'default', 0.4)], False),
+    (4, [(2, 2, 'default', 2.0), (1, 3, 'default', 0.4), (3, 1, 'default', 3.0)], False),
+    (3, [(2, 1, 'default', 2.0), (1, 2, 'gain', 2.0), (1, 2, 'default', 0.5), (2, 1, 'gain', 3.0)], True),
+]
+
+
+def order_scenario(ctx, forced=None):
+    """generator: a sequence of 2 ... 4 fits that one process performs one after the other.  All fits of a scenario have the same
+    total lifted dimension p; the splits into states and inputs differ (1+2 then 2+1, 2+2 then 1+3 then 3+1, ...), as do the
+    supply rates (default = None, gain bounds, mixed rates), the data (plant gain above the bound: constraint active; well
+    below it: a strictly admissible model exists), alpha and max_iter.  picos_eps = 0 for the default supply rate (as in the
+    library's own estimator checks; with the default picos_eps the first sub-problem is infeasible, known finding)"""
+    from .c10 import hinf_norm
+    from .. import structural as st
+    rng = ctx.rng
+    snap = ctx.snap()
+    rs = np.random.RandomState(rng.randint(0, 2 ** 31 - 1))
+    if forced is not None:
+        p, plan, reuse = ORDER_SWEEPS[forced]
+        plan = list(plan)
+    else:
+        p = rng.choice([3, 3, 4, 4, 5])
+        splits = [(a, p - a) for a in range(1, p)]
+        rng.shuffle(splits)
+        splits = splits[:rng.choice([2, 3])]
+        if rng.random() < 0.5:
+            splits.append(splits[0])        # the first split again after the others
+        all_default = rng.random() < 0.4
+        plan = [(a, b, 'default' if all_default or rng.random() < 0.5 else rng.choice(['gain', 'gain', 'mixed']),
+                 rng.choice([0.4, 0.6, 1.5, 2.0, 3.0])) for a, b in splits]
+        reuse = rng.random() < 0.3
+    steps = []
+    for nx, nu, kind, over in plan:
+        g = 1.0 if kind == 'default' else rng.choice([1.5, 2.0, 4.0])
+        A0 = rs.uniform(-1, 1, (nx, nx))
+        A0 *= rng.choice([0.3, 0.5, 0.7]) / max(0.2, np.max(np.abs(np.linalg.eigvals(A0))))
+        B0 = rs.uniform(-1, 1, (nx, nu))
+        B0 *= over * g / hinf_norm(A0, B0, np.eye(nx), np.zeros((nx, nu)), 600)       # plant gain = over * bound
+        n_ep, n = 3, rng.randint(15, 25)
+        blocks = []
+        for l in range(n_ep):
+            x = np.zeros((n, nx)); u = rs.randn(n, nu); x[0] = rs.randn(nx)
+            for k in range(n - 1):
+                x[k + 1] = A0 @ x[k] + B0 @ u[k] + 0.005 * rs.randn(nx)
+            blocks.append((l, np.hstack((x, u))))
+        X = st.ref_combine(blocks, True)
+        Xi = gain_supply(nx, nu, g)         # for 'default': diag(I, -I), what supply_rate=None is documented to mean
+        if kind == 'mixed':
+            S = np.array([[rng.choice([0.3, -0.2, 0.1]) for _ in range(nu)] for _ in range(nx)])
+            Xi[:nx, nx:] = S
+            Xi[nx:, :nx] = S.T
+        params = {'alpha': rng.choice([0, 1e-3, 0.1]), 'max_iter': rng.choice([1, 2, 3, 4]),
+                  'supply_rate': None if kind == 'default' else Xi.tolist()}
+        if kind == 'default':
+            params['picos_eps'] = 0
+        steps.append({'nx': nx, 'nu': nu, 'kind': kind, 'bound': g, 'plant_gain_over_bound': over, 'Xi': Xi.tolist(),
+                      'params': params, 'X': X.tolist()})
+    return {'p': p, 'reuse_estimator': reuse, 'steps': steps, 'replay': {'rng': snap, 'oracle': 'process-order', 'forced': forced}}
+
+
+def order_jobs(sc):
+    return [{'X': s['X'], 'nu': s['nu'], 'params': s['params'], 'solver': dict(lc.SOLVER)} for s in sc['steps']]
+
+
+def order_fit_all(sc):
+    """performs the fits of one scenario in THIS process, in order (which has, by then, built and fitted many other estimators
+    of other sizes and splits); returns per step None (fit did not complete) or (coef_.T, P_, stop_reason_, n_iter_)"""
+    reg = None
+    got = []
+    for s in sc['steps']:
+        kw = dict(s['params'])
+        if kw['supply_rate'] is not None:
+            kw['supply_rate'] = np.array(kw['supply_rate'], dtype=float)
+        if sc['reuse_estimator'] and reg is not None:
+            reg.set_params(**dict({'picos_eps': lmi.LmiEdmdDissipativityConstr().get_params()['picos_eps']}, **kw))
+        else:
+            reg = lmi.LmiEdmdDissipativityConstr(solver_params=dict(lc.SOLVER), **kw)
+        try:
+            reg.fit(np.array(s['X'], dtype=float), n_inputs=s['nu'], episode_feature=True)
+            got.append((np.array(reg.coef_, dtype=float).T, np.array(reg.P_, dtype=float), str(reg.stop_reason_), int(reg.n_iter_)))
+        except Exception:
+            got.append(None)
+    return got
+
+
+def oracle_order(sc, got, fresh):
+    """verdicts on the fits of one scenario.  Each fit must satisfy ITS OWN dissipation inequality / gain bound (supply rate as
+    requested in that step, built here) and must not be the all-zero matrix when an admissible model exists: witnessed by the
+    same fit done as the first fit of a fresh process (`fresh`, itself checked here to be non-zero and dissipative) or, without
+    such a reference, by the plant that generated the data (gain well below the bound).  Yields (step index, failure text or
+    None, note)"""
+    for i, s in enumerate(sc['steps']):
+        nx, nu = s['nx'], s['nu']
+        Xi = np.array(s['Xi'], dtype=float)
+        where = (f'fit {i + 1} of {len(sc["steps"])} in one process ({nx} states + {nu} inputs, supply rate: {s["kind"]}'
+                 + (f' bound {s["bound"]}' if s['kind'] != 'default' else ' = l2 gain <= 1') + '; the process has run the other sections of this check before; earlier fits of this scenario: '
+                 + (', '.join(f'{t["nx"]}+{t["nu"]} {t["kind"]}' for t in sc['steps'][:i]) or 'none') + ')')
+        if got[i] is None:
+            yield i, None, 'fit did not complete'
+            continue
+        U, P, stop, n_iter = got[i]
+        ref = fresh[i] if fresh is not None else None
+        ref_ok = False
+        if ref is not None:
+            Ur = np.array(ref['coef'], dtype=float).T
+            ref_ok = bool(Ur.shape == U.shape and np.any(Ur)) and not dissipativity_problems(
+                Ur, np.array(ref['P'], dtype=float), Xi, nx, s['bound'], s['kind'] == 'mixed')
+        if not np.any(U):
+            if ref_ok:
+                yield i, (f'all-zero Koopman matrix (stop_reason_ {stop!r}) although an admissible model exists: the same estimator '
+                          f'settings on the same data, fitted as the first fit of a fresh process, return a non-zero model that '
+                          f'satisfies the dissipation inequality (coef_ {np.round(Ur, 4).tolist()}); ' + where), 'zero model'
+            elif s['plant_gain_over_bound'] < 0.9 and s['kind'] != 'mixed' and ref is None:
+                yield i, (f'all-zero Koopman matrix (stop_reason_ {stop!r}) although the plant that generated the data has l2 gain '
+                          f'{s["plant_gain_over_bound"]} x the bound; ' + where), 'zero model'
+            else:
+                yield i, None, 'zero model (also when fitted first in a fresh process)'
+            continue
+        problems = dissipativity_problems(U, P, Xi, nx, s['bound'], s['kind'] == 'mixed')
+        if problems:
+            yield i, ('; '.join(problems) + f' [stop_reason_ {stop!r}, n_iter_ {n_iter}'
+                      + ('; the same fit as the first fit of a fresh process is dissipative' if ref_ok else '') + ']; ' + where), None
+            continue
+        if ref is None:
+            yield i, None, 'ok (no fresh-process reference)'
+        elif Ur.shape == U.shape and np.allclose(U, Ur, rtol=1e-5, atol=1e-6 * max(1.0, np.max(np.abs(Ur)))):
+            yield i, None, 'ok, equal to the fresh-process fit'
+        else:
+            yield i, None, 'ok, differs from the fresh-process fit'
+
+
 def run(ctx):
     ctx.rule = ('(i) the real _create_problem_a/_b of LmiEdmdDissipativityConstr (default and random symmetric supply '
                 'rates) evaluated with PICOS at dyadic points vs the Lean block over Q; (ii) scripted-solver loop '
@@ -355,12 +623,22 @@ def run(ctx):
                 'amplitude, data in small units, tiny alpha, loosened iter_atol / iter_rtol, barely active bounds; gain and '
                 'mixed supply rates): whatever stop_reason_ says, P_ >= 0 and the eigenvalues of [A B]\'P_[A B] - diag(P_,0) '
                 '+ Xi <= 0, and - independently of P_ - the frequency-domain inequality of the supply rate / the l2 gain of '
-                'the returned model; each case is classified active / inactive with an own least-squares solution')
+                'the returned model; each case is classified active / inactive with an own least-squares solution; '
+                '(vi) process-level state / order of first use: scenarios of 2..4 fits performed one after the other in THIS '
+                'process (after all other sections), all with the same lifted dimension p = states + inputs (3, 4, 5) but '
+                'different splits (1+2 then 2+1, 2+2 then 1+3 then 3+1, ..., the first split again at the end), default '
+                '(supply_rate=None, picos_eps=0), gain-bound and mixed supply rates, active and admissible plants, fresh '
+                'estimators or one estimator re-used with set_params: every fit must satisfy the dissipation inequality of '
+                'ITS OWN supply rate (built here from the documented meaning, P_ >= 0, LMI eigenvalues, frequency-domain '
+                'inequality, l2 gain) and must not be all-zero when the SAME fit performed as the first fit of a fresh '
+                'interpreter (forked worker, one child per fit) returns a non-zero dissipative model')
     ctx.explanation = ('theorems C11_* (dissipation inequality from the LMI, summed over any horizon, default supply = l2 gain '
                        '<= 1, and the infeasibility of the default first sub-problem for every data set); correspondence of '
                        'structure and loop; oracles on cvxopt fits, including data regimes in which an active constraint '
                        'changes the cost by less than the iteration tolerances (the returned pair must be dissipative for every '
-                       'stop reason)')
+                       'stop reason); sequences of fits with equal lifted dimension and different state / input splits and supply '
+                       'rates in one process, each compared with the same fit done first in a fresh process (a fit must not '
+                       'depend on what the process fitted before)')
     ctx.assumptions = ["an 'optimal' solver answer satisfies its constraints up to tolerance (measured)"]
     ctx.proof_obligations('Properties.C11', THEOREMS)
     drv = ctx.get_driver()
@@ -446,11 +724,41 @@ def run(ctx):
         ctx.count('non-vacuity probe (given supply rate)' + (': no admissible case' if res is None and False else ''))
         if res:
             ctx.fail(*res)
+    def order_fits(n, stop_at_first=False, sweeps=True):
+        scs = [order_scenario(ctx, forced=i) for i in range(len(ORDER_SWEEPS) if sweeps else 0)]
+        scs += [order_scenario(ctx) for _ in range(n)]
+        ff = FreshFits([j for sc in scs for j in order_jobs(sc)])     # reference fits run in the background meanwhile
+        got = [order_fit_all(sc) for sc in scs]       # in this process, in order
+        ref = ff.results()
+        k = 0
+        for j, sc in enumerate(scs):
+            m = len(sc['steps'])
+            fresh = ref[k:k + m]
+            k += m
+            splits = ' then '.join(f'{t["nx"]}+{t["nu"]}' for t in sc['steps'])
+            ctx.count(f'process-order scenario p={sc["p"]}' + (', one estimator re-used' if sc['reuse_estimator'] else ''))
+            for i, why, note in oracle_order(sc, got[j], fresh):
+                s = sc['steps'][i]
+                ctx.count(f'process-order fit ({s["kind"]} supply rate, ' + ('constraint active' if s['plant_gain_over_bound'] > 1
+                                                                            else 'admissible plant') + '): '
+                          + ('FAILED' if why else note))
+                ctx.record_case({'scenario': splits, 'step': i, 'kind': s['kind'], 'params': s['params'],
+                                 'plant_gain_over_bound': s['plant_gain_over_bound']}, True)
+                if why:
+                    ctx.fail(why, dict(sc, failing_step=i),
+                             {'estimator': 'LmiEdmdDissipativityConstr', 'supply_rate': s['kind'] + ' (several fits in one process)',
+                              'clause': 'non-vacuous' if note == 'zero model' else 'dissipative', 'order': splits})
+                    if stop_at_first:
+                        return
+    order_fits(ctx.n(5, 40))
+
     # a broken proof / correspondence with no failing fit so far: a larger population of fits (same oracle)
     def search(c):
         fits(80, True)
         if not c.failures:
             weak_fits(80, True)
+        if not c.failures:
+            order_fits(30, True, sweeps=False)
     return ctx.finish('proof', search)
 
 
@@ -463,6 +771,14 @@ def replay(ctx, path):
         print('this replay carries no re-executable oracle call (broken proof / correspondence: see "broken")')
         return 1
     ctx.restore(r['rng'])
+    if r.get('oracle') == 'process-order':
+        sc = order_scenario(ctx, forced=r.get('forced'))
+        fresh = FreshFits(order_jobs(sc)).results()
+        rc = 0
+        for i, why, note in oracle_order(sc, order_fit_all(sc), fresh):
+            print(f'fit {i + 1}:', why or 'property holds on this input', '' if note is None else f'({note})')
+            rc = 1 if why else rc
+        return rc
     if r.get('oracle') == 'weak-effect':
         why, case, note, _ = oracle_weak_effect(ctx)
         print('oracle now:', why or 'property holds on this input', '' if note is None else f'({note})')
